@@ -4112,6 +4112,12 @@ class FlowIR(object):
                 'isRepeat': bool,
                 # VV: when maxRestarts is None, the Engine/RepeatingEngine objects decides max number of restarts
                 'maxRestarts': optional_int,
+                'memoization': {
+                    'disable': {
+                        'strong': str_to_bool,
+                        'fuzzy': str_to_bool,
+                    },
+                },
                 'optimizer': {
                     'disable': bool,
                     'exploitChance': float,
